@@ -49,6 +49,19 @@ impl Builder {
     where
         R: 'static + io::BufRead,
     {
+        // Detection below inspects a single `fill_buf`, which for a pipe or socket may hold as
+        // little as one byte. Buffer a bounded prefix up front (one maximal BGZF block), so that
+        // detection does not depend on how the stream happens to be chunked, and chain it back
+        // in front of the remaining input.
+        const DETECTION_PREFIX_LEN: u64 = 1 << 16;
+
+        let mut prefix = Vec::new();
+        reader
+            .by_ref()
+            .take(DETECTION_PREFIX_LEN)
+            .read_to_end(&mut prefix)?;
+        let mut reader = io::Cursor::new(prefix).chain(reader);
+
         let compression_method = match self.compression_method {
             Some(compression_method) => compression_method,
             None => CompressionMethod::detect(&mut reader)?,
